@@ -3,7 +3,8 @@
 Stream `resolve`:
   resolve subst <modules with references> <the same modules, uses replaced by literals> <family>:<quirk>:<expect>
       → `<answer A> || <answer B>`; oracle: expect=eq: both `ok` and equal; expect=unresolved /
-        illtyped: answer A is `err resolve-reference` / `err resolve-literal`
+        illtyped: answer A is `err resolve-reference` / `err resolve-literal`; expect=refused: both
+        answers are `err resolve-reference` (a use that has no valid literal form either)
   resolve perm <modules> <family>:<quirk>:<expect>
       → the answers for every load order; oracle: all `ok` and equal (dumps are reported in
         request order), or expect=err: all `err`
@@ -17,9 +18,9 @@ import front_gen as G
 import runner
 import vlib
 
+# (repaired, no longer finding classes: size_negative — was resolve.size_negative_wraps —,
+#  cyclic_import — was resolve.cyclic_import_overflow; their witnesses stay as family `regress`)
 QUIRK_CLASS = {
-    "size_negative": "resolve.size_negative_wraps",
-    "cyclic_import": "resolve.cyclic_import_overflow",
     "name_oid_conflict": "resolve.import_name_oid_conflict",
     "literal_widened": "resolve.literal_variant_widened",
 }
@@ -100,6 +101,13 @@ class Case:
         ty = {"i": INT, "b": ("bool",), "s": ("str", "utf8", ("any",)), "o": ("oct", ("any",))}[lit[0]]
         return ("vr", nm, ty, lit)
 
+    def decoy(self, nm):
+        lit = self.values[nm]
+        other = {"i": ("i", (lit[1] + 1) if lit[0] == "i" else 0), "b": ("b", not lit[1]) if lit[0] == "b" else ("b", True),
+                 "s": ("s", ["decoy"]), "o": ("o", "DEC0")}[lit[0]]
+        ty = {"i": INT, "b": ("bool",), "s": ("str", "utf8", ("any",)), "o": ("oct", ("any",))}[lit[0]]
+        return ("vr", nm, ty, other)
+
     def sibling(self, with_oid):
         g = self.g
         m = {"name": g.fresh("module"), "oid": None, "imports": [], "items": []}
@@ -155,6 +163,15 @@ class Case:
                 a["imports"].append((fb, b["name"], None))
             if fc:
                 a["imports"].append((fc, c["name"] if r.chance(1, 2) else self.g.fresh("module"), c["oid"]))
+            # either clause may come first: a FROM clause by name after one by object identifier
+            if r.chance(1, 2):
+                a["imports"].reverse()
+            # decoys: the module that is NOT imported from may define the same name with another value
+            if r.chance(1, 3):
+                for n in fb:
+                    c["items"].append(self.decoy(n))
+                for n in fc:
+                    b["items"].append(self.decoy(n))
             self.mods += [b, c]
             return
         if topo == "chain":
@@ -244,7 +261,7 @@ class ResolveStream(runner.Stream):
             out.append(self.neg(mods, "module_not_loaded", "unresolved", r))
         # (3) the reference names a value that is not an integer
         mods = clone(c.mods)
-        bad = r.choice([("b", True), ("s", ["text"]), ("o", "0A")])
+        bad = r.choice([("b", True), ("s", ["text"]), ("o", "0A"), ("s", ["10"]), ("s", [str(r.range(0, 300))]), ("o", "10")])
         for m in mods:
             m["items"] = [(("vr", it[1], {"b": ("bool",), "s": ("str", "utf8", ("any",)), "o": ("oct", ("any",))}[bad[0]], bad)
                            if (it[0] == "vr" and it[1] == victim) else it) for it in m["items"]]
@@ -265,25 +282,54 @@ class ResolveStream(runner.Stream):
         def mod(name, items, oid=None, imports=None):
             return {"name": name, "oid": oid, "imports": imports or [], "items": items}
 
-        # (first in the stream: the real resolver aborts the process here, and answers that are
-        #  still buffered would be lost)
-        # a module that imports an undefined name from itself: unbounded recursion
+        # a name imported in a cycle that never defines it (regression corpus: the real resolver
+        # recursed until the stack overflowed; repaired — at most scope.len() imports are followed —,
+        # the use is an unresolved reference).  A module that imports an undefined name from itself:
         a = mod("Selfish", [("def", "A", None, ("int", 0, ("ref", "ghost"), False, []))], imports=[(["ghost"], "Selfish", None)])
-        out.append(f"resolve subst {texts([a])} - quirk:cyclic_import:unresolved")
+        out.append(f"resolve subst {texts([a])} - regress:cyclic_import:unresolved")
+        a = mod("Selfish", [("def", "A", None, ("oct", ("fix", ("ref", "ghost"), False)))], imports=[(["ghost"], "Selfish", None)])
+        out.append(f"resolve subst {texts([a])} - regress:cyclic_import:unresolved")
+        a = mod("Selfish", [("def", "A", None, ("seq", [("d", None, INT, ("dflt", ("ref", "ghost")))], None, None))],
+                imports=[(["ghost"], "Selfish", None)])
+        out.append(f"resolve subst {texts([a])} - regress:cyclic_import:unresolved")
+        # two and three modules in a circle, every load order
         a = mod("Ping", [("def", "A", None, ("int", 0, ("ref", "ghost"), False, []))], imports=[(["ghost"], "Pong", None)])
         b = mod("Pong", [("def", "B", None, INT)], imports=[(["ghost"], "Ping", None)])
-        out.append(f"resolve subst {texts([a, b])} - quirk:cyclic_import:unresolved")
+        out.append(f"resolve subst {texts([a, b])} - regress:cyclic_import:unresolved")
+        out.append(f"resolve subst {texts([b, a])} - regress:cyclic_import:unresolved")
+        out.append(f"resolve perm {texts([a, b])} regress:cyclic_import:err")
+        b3 = mod("Pong", [("def", "B", None, INT)], imports=[(["ghost"], "Pang", [("u", 3), ("u", 3)])])
+        c3 = mod("Pang", [("def", "C", None, INT)], oid=[("u", 3), ("u", 3)], imports=[(["ghost"], "Ping", None)])
+        out.append(f"resolve perm {texts([a, b3, c3])} regress:cyclic_import:err")
+        # … and a circle that does define the name on the way is no circle for the chase
+        c3d = mod("Pang", [("vr", "ghost", INT, ("i", 5)), ("def", "C", None, INT)], oid=[("u", 3), ("u", 3)],
+                  imports=[(["ghost"], "Ping", None)])
+        out.append(f"resolve perm {texts([a, b3, c3d])} regress:cyclic_import:ok")
+        # the bound of scope.len() imports does not cut a chase through every loaded module short
+        m1 = mod("Ma", [("def", "A", None, ("int", 0, ("ref", "deep"), False, []))], imports=[(["deep"], "Mb", None)])
+        m2 = mod("Mb", [], imports=[(["deep"], "Mc", None)])
+        m3 = mod("Mc", [], imports=[(["deep"], "Md", None)])
+        m4 = mod("Md", [("vr", "deep", INT, ("i", 77))])
+        out.append(f"resolve perm {texts([m1, m2, m3, m4])} regress:long_chain:ok")
+        lit = G.subst_module(m1, {"deep": ("i", 77)})
+        out.append(f"resolve subst {texts([m1, m2, m3, m4])} {texts([lit, m2, m3, m4])} regress:long_chain:eq")
         # the example of the crate's own tests: references in range and size
         a = mod("Main", [("vr", "lo", INT, ("i", 3)), ("vr", "hi", INT, ("i", 9)),
                          ("def", "R", None, ("int", ("ref", "lo"), ("ref", "hi"), True, [])),
                          ("def", "S", None, ("str", "utf8", ("range", ("ref", "lo"), ("ref", "hi"), False))),
                          ("def", "D", None, ("seq", [("d", None, INT, ("dflt", ("ref", "lo")))], None, None))])
         out.append(f"resolve subst {texts([a])} {texts([G.subst_module(a, {'lo': ('i', 3), 'hi': ('i', 9)})])} witness:local:eq")
-        # negative SIZE through a reference: wraps to 2^64-1, the literal is refused
+        # negative SIZE through a reference (regression corpus: it wrapped to 2^64-1; repaired —
+        # usize::try_from —): refused like the literal SIZE(-1)
         a = mod("Neg", [("vr", "n", INT, ("i", -1)), ("def", "A", None, ("oct", ("fix", ("ref", "n"), False)))])
-        out.append(f"resolve subst {texts([a])} {texts([G.subst_module(a, {'n': ('i', -1)})])} quirk:size_negative:eq")
+        out.append(f"resolve subst {texts([a])} {texts([G.subst_module(a, {'n': ('i', -1)})])} regress:size_negative:refused")
         a = mod("Neg", [("vr", "n", INT, ("i", -5)), ("def", "A", None, ("seqof", ("range", ("ref", "n"), 4, False), INT))])
-        out.append(f"resolve subst {texts([a])} {texts([G.subst_module(a, {'n': ('i', -5)})])} quirk:size_negative:eq")
+        out.append(f"resolve subst {texts([a])} {texts([G.subst_module(a, {'n': ('i', -5)})])} regress:size_negative:refused")
+        a = mod("Neg", [("vr", "n", INT, ("i", -(2 ** 63))), ("def", "A", None, ("str", "utf8", ("range", 0, ("ref", "n"), True)))])
+        out.append(f"resolve subst {texts([a])} {texts([G.subst_module(a, {'n': ('i', -(2 ** 63))})])} regress:size_negative:refused")
+        # … the largest i64 still resolves like its literal
+        a = mod("Big", [("vr", "n", INT, ("i", 2 ** 63 - 2)), ("def", "A", None, ("oct", ("fix", ("ref", "n"), False)))])
+        out.append(f"resolve subst {texts([a])} {texts([G.subst_module(a, {'n': ('i', 2 ** 63 - 2)})])} regress:size_large:eq")
         # the literal variant runs into the parser's widening of (0..MAX)
         a = mod("Wide", [("vr", "zero", INT, ("i", 0)), ("def", "A", None, ("int", ("ref", "zero"), None, False, []))])
         out.append(f"resolve subst {texts([a])} {texts([G.subst_module(a, {'zero': ('i', 0)})])} quirk:literal_widened:eq")
@@ -308,6 +354,12 @@ class ResolveStream(runner.Stream):
             if len(parts) != 2:
                 return "malformed answer"
             a, b = parts
+            if expect == "refused":
+                if a != "err resolve-reference":
+                    return f"a use without valid literal form must be refused with `err resolve-reference`, got `{a[:160]}`"
+                if b != a:
+                    return f"the literal variant answers `{b[:160]}`, the module with references `{a[:160]}`"
+                return None
             if expect == "eq":
                 if not a.startswith("ok "):
                     return f"module with value references does not resolve: {a[:120]}"
@@ -350,13 +402,6 @@ class ResolveStream(runner.Stream):
     def nontrivial(self, req, ans):
         return True
 
-    def compare(self, req, impl, model):
-        if impl == "abort":
-            # the harness process died (stack overflow); the model reports the diverging chase
-            return "abort" in model.split(" ")
-        return impl == model
-
-
 def first_diff(exp, got):
     i = 0
     while i < min(len(exp), len(got)) and exp[i] == got[i]:
@@ -371,7 +416,7 @@ class Spec(runner.Spec):
     assumptions = [
         "the literal variant keeps the value reference definitions and the imports; only the uses (INTEGER range bounds, SIZE bounds, DEFAULT values) are replaced",
         "sibling modules are found by equal object identifier (when the loaded module has one) or by equal name; scenarios in which name and identifier point to different loaded modules are a separate (finding) family",
-        "cyclic imports (a name imported in a cycle that never defines it) make the real resolver overflow the stack; excluded from the generated scenarios, pinned as witnesses",
+        "cyclic imports (a name imported in a cycle that never defines it) are unresolved references (repaired; the real resolver used to overflow the stack); not part of the generated scenarios, pinned as regression witnesses incl. every load order",
         "Rust semantics of the mirrored resolver is tied to the Lean mirror only by differential execution (stream `resolve`)",
     ]
     trusted_base = [
